@@ -1876,6 +1876,16 @@ stream_decoder_mt_memconfig(void *coder_ptr, uint64_t *memusage,
 				+ coder->outq.mem_allocated;
 	}
 
+	// If LZMA_MEMLIMIT_ERROR was returned because the filter chain of
+	// the next Block would need more memory than memlimit_stop allows,
+	// report that amount. Otherwise the application couldn't find out
+	// how much memory is required to continue decoding, and using
+	// the returned value with lzma_memlimit_set() wouldn't help.
+	if (coder->sequence == SEQ_BLOCK_INIT
+			&& coder->mem_next_filters > coder->memlimit_stop
+			&& *memusage < coder->mem_next_filters)
+		*memusage = coder->mem_next_filters;
+
 	// If no filter chains are allocated, *memusage may be zero.
 	// Always return at least LZMA_MEMUSAGE_BASE.
 	if (*memusage < LZMA_MEMUSAGE_BASE)
